@@ -34,6 +34,17 @@ func c05Profile(variant string) func(c *sim.RunCtx) {
 				cfg.BlockSectors = (48 + cfg.SectorSize - 1) / cfg.SectorSize
 			}
 		}
+		// write-fault variant: device writes fail now and then. A failed write
+		// is a reported failure, not corruption, so the property's premise
+		// holds; a refresh that fails must make the read fail (a read that
+		// nevertheless reports success would be a touch that does not protect).
+		writeFaults := variant == "flat-writefaults"
+		if writeFaults {
+			cfg.Disk = true
+			if cfg.SectorSize == 1 && cfg.BlockSectors < 8 {
+				cfg.BlockSectors = 16
+			}
+		}
 		single := t.Chance(1, 3)
 		wo := &workloadOpts{
 			Objects:      4 + t.Choose(10),
@@ -55,6 +66,10 @@ func c05Profile(variant string) func(c *sim.RunCtx) {
 		inRepeat := false
 		opts := &storeRunOpts{cfg: cfg, wo: wo}
 		opts.setup = func(w *storeWorld) {
+			if writeFaults {
+				w.tolerateIOErrors = true
+				w.e.data.Faults = &sim.DiskFaults{WriteErr: []int{20, 60}[t.Choose(2)], T: c.T.Fault}
+			}
 			w.onGetDone = func(op *storeOp, res int, invokeAlloc int) {
 				if op.Kind != opGet || inRepeat || res == getOtherErr {
 					return
@@ -148,6 +163,7 @@ func init() {
 			{Name: "flat", Weight: 4, Fn: c05Profile("flat")},
 			{Name: "hier", Weight: 3, Fn: c05Profile("hier")},
 			{Name: "mutable", Weight: 2, Fn: c05Profile("mutable")},
+			{Name: "flat-writefaults", Weight: 2, Fn: c05Profile("flat-writefaults")},
 		},
 		Components: map[string][]string{
 			"real": {"pkg/blobstore/local: flat/hierarchical blob access, old/current/new map, both growth policies, volatile block list, allocators, hashing index", "pkg/blobstore/buffer"},
